@@ -36,6 +36,8 @@ Proof.
   intros s c a s' c' H. destruct (d_exp_Done _ _ _ _ H) as (t & E & E'). simpl in E, E'. inversion E'; subst.
   exists [DExp a]. split; [reflexivity|]. intros t0. reflexivity.
 Qed.
+Lemma framed_expovariate rate : framed (expovariate rate).
+Proof. unfold expovariate. destruct (Qeq_bool rate 0); [apply framed_raise|apply framed_d_exp]. Qed.
 Lemma framed_d_unit : framed d_unit.
 Proof.
   intros s c a s' c' H. destruct (d_unit_Done _ _ _ H) as (t & E & E'). simpl in E, E'. inversion E'; subst.
@@ -81,13 +83,12 @@ Qed.
 
 Lemma framed_bd_body : forall P st, framed (bd_body P st).
 Proof.
-  intros P st. unfold bd_body. cbv zeta. destruct (Qeq_bool _ _); [apply framed_raise|].
-  apply framed_bnd; [apply framed_d_exp|intros w].
+  intros P st. unfold bd_body. cbv zeta.
+  apply framed_bnd; [unfold expovariate; destruct (Qeq_bool _ _); [apply framed_raise|apply framed_d_exp]|intros w].
   apply framed_bnd; [unfold weighted_index_choice; apply framed_bnd; [apply framed_d_unit|intros u; apply framed_ret]|intros oi].
   destruct oi as [i|]; [|apply framed_raise]. destruct (nth_error _ i) as [[nd b]|]; [|apply framed_raise].
   destruct b.
-  - destruct (rates_of P st nd) as [b d].
-    apply framed_bnd; [apply framed_d_gauss|intros g1]. apply framed_bnd; [apply framed_d_gauss|intros g2].
+  - apply framed_bnd; [apply framed_d_gauss|intros g1]. apply framed_bnd; [apply framed_d_gauss|intros g2].
     apply framed_bnd; [apply framed_d_gauss|intros g3]. apply framed_bnd; [apply framed_d_gauss|intros g4]. apply framed_ret.
   - destruct (remove_first nd (s_ext st)); apply framed_ret.
 Qed.
@@ -193,17 +194,17 @@ Qed.
 Lemma framed_pb_loop : forall fuel N b t next, framed (pb_loop fuel N b t next).
 Proof.
   induction fuel as [|f IH]; intros N b t next; simpl.
-  - apply (framed_guard _ t (fun _ => NoFuel)). apply framed_const_nofuel.
-  - apply (framed_guard _ t (bnd (d_exp (pb_rate (length (leaf_ids t)) b))
+  - apply (framed_guard _ (t, next) (fun _ => NoFuel)). apply framed_const_nofuel.
+  - apply (framed_guard _ (t, next) (bnd (expovariate (pb_rate (length (leaf_ids t)) b))
         (fun w => bnd (d_choice (length (leaf_ids t)))
            (fun i => pb_loop f N b (set_kids (nth i (leaf_ids t) 0) [bleaf next 0; bleaf (S next) 0] (add_len_set (leaf_ids t) w t)) (S (S next)))))).
-    apply framed_bnd; [apply framed_d_exp|intros w]. apply framed_bnd; [apply framed_d_choice|intros i]. apply IH.
+    apply framed_bnd; [apply framed_expovariate|intros w]. apply framed_bnd; [apply framed_d_choice|intros i]. apply IH.
 Qed.
 
 Lemma framed_pb_run : forall N b, framed (pb_run N b).
 Proof.
-  intros. unfold pb_run. destruct (Qeq_bool b 0); [apply framed_raise|].
-  apply framed_bnd; [apply framed_pb_loop|intros t]. cbv zeta. apply framed_bnd; [apply framed_d_exp|intros w].
+  intros. unfold pb_run.
+  apply framed_bnd; [apply framed_pb_loop|intros t]. cbv zeta. apply framed_bnd; [apply framed_expovariate|intros w].
   destruct (_ <=? _); [apply framed_ret|apply framed_raise].
 Qed.
 
